@@ -26,7 +26,18 @@ RULE = ('histories over the name lattice /a, /a/b, /a/b/c, /x (with/without impl
         'by Data / Nack / cancel / timeout (holes above, between and below); the other names validating, verdicts and late '
         'packets after the shutdown} - every pending Interest must end Cancelled at the shutdown; a fifth of the random '
         'histories end with a shutdown (some on a pending deadline); thorough: all histories up to 5 events over '
-        '2 names x 3 Interests + a 1/40 sample of the 6-event ones; both front-ends. non-trivial = at least one Interest and more than two events')
+        '2 names x 3 Interests + a 1/40 sample of the 6-event ones; both front-ends. DEFERRED FIRST AWAIT (the coroutine returned by '
+        'express() starts to run d after the Interest was expressed, 0 < d < lifetime, any events in between; outcome and timeout time '
+        'are fixed by express time + lifetime, the specification automaton ignores Await): window table d {1, 40, 99} x packet (Data, '
+        'Nack, slow verdict, Data under a CanBePrefix Interest, Data for an implicit digest) at D-1, D, D+1, D+d-1, D+d, D+d+1 (at D and '
+        'D+d in all three tie modes) next to an Interest on the same name awaited at once; nothing arrives; packet / shutdown before the '
+        'first await; express-all-then-collect chains (the k-th result awaited when the (k-1)-th is there, Data just before / after D '
+        'and D + waiting time); EVERY well-formed targeted pattern above with the awaits of its Interests deferred (each alone by 1, '
+        'half, lifetime-1, before / behind the other events of that millisecond; all together; two rotating plans for the Nack-reason '
+        'and shutdown tables in quick); random well-formed histories with a random subset of awaits deferred; oracle clause '
+        'timeout-not-at-deadline (every InterestTimeout at express time + lifetime, also in the well-formed histories). Judged by the '
+        'specification in both front-ends (the legacy one counted the lifetime from the first await: genuine defect found by this '
+        'family, fixed by 949ef3c; legacy: no VDone before the Await, its validator is called by the awaitable). non-trivial = at least one Interest and more than two events')
 ASSUMPTIONS = ['asyncio (CPython 3.12: Future, Task.cancel, wait_for/timeouts.Timeout, FIFO ready queue) is the event '
                'alphabet of the model; the three tie modes are the linearisations a loop turn permits',
                'validators are harness coroutines that answer at once or wait on a harness future; validators raising '
@@ -77,6 +88,11 @@ def run(ctx):
     for fe in ('v2', 'v1'):
         for tag, h in P.targeted(fe):
             P.check_history(ctx, fe, h, 'targeted.' + tag, 'C03')
+        # deferred first await: the awaitable returned by express() starts to run some time after the Interest was sent
+        for tag, h in P.deferred_family(fe, full=ctx.thorough):
+            P.check_history(ctx, fe, h, tag if tag.startswith('deferred-') else 'targeted-' + tag, 'C03')
+        for k in range(ctx.n(300, 4000)):
+            P.check_history(ctx, fe, P.rand_history_deferred(ctx.rng, fe), 'random-deferred-await', 'C03')
         n = ctx.n(900, 8000)
         for k in range(n):
             wf = ctx.rng.random() < 0.85
@@ -93,6 +109,12 @@ def run(ctx):
                 P.check_history(ctx, fe, h, f'enum{k}', 'C03')
                 cnt += 1
             ctx.stat(f'{fe}.enum.total', cnt)
+    for fe in ('v2', 'v1'):
+        k = ctx.stats.get(f'{fe}.deferred-await.not-judged', 0)
+        if k:
+            ctx.notes.append(f'{fe}: {k} histories with a deferred first await were compared with the model but NOT judged by the '
+                             f'specification: this front-end starts the lifetime at the first await of the coroutine returned by '
+                             f'express_interest, not at express (docs/C03.md, "Deferred first await"); see _pipeline.DEFERRED_ORACLE')
 
 
 def replay(ctx, data):
